@@ -6,7 +6,7 @@ from ..core import sx, parse_sx
 THREADS = [0, 1, 2, 3, 4, 8, 16]          # 0 = current-thread runtime
 CHANS = [0, 1, 100]                       # BBIWriteOptions.channel_size (futures mpsc: capacity = size + 1 sender slot)
 SOURCES = [0, 1, 2, 3]                    # 0 in-memory iterator, 1 serial text file, 2 parallel (harness index), 3 parallel (index_chroms)
-REFERENCE = [1, 1, 100, 0, 0]             # threads inmemory channel_size source delay_seed
+REFERENCE = [2, 1, 100, 0, 0]             # threads inmemory channel_size source delay_seed
 NAMES = bbigen.NAMES
 
 
@@ -80,14 +80,14 @@ def pipeline_input(rng, tier, kind):
 class C11(Prop):
     ID = "C11"
     NEED_BINS = True
-    PER_CASE_TIMEOUT = 120.0
+    PER_CASE_TIMEOUT = 150.0
     THEOREMS = ["C11_fifo_order", "C11_splice", "C11_file_prefix", "C11_schedule_independent", "C11_offsets_address_sections",
                 "C11_splice_bigwig", "C11_progress", "C11_completion", "C11_await_never_blocks", "C11_buffer_contract",
                 "C11_converter_order", "C11_converter_progress", "C11_converter_completion", "C11_converter_await_never_blocks"]
     RULE = ("inputs: 1-10 chromosomes (names whose input, lexicographic and id order differ), per chromosome up to 40 sorted items, "
             "items_per_slot mostly 1/2/3/7 so that a chromosome has many sections, block sizes 2..256, zoom modes auto/small/manual/none, "
             "compressed and uncompressed, bigWig (60%) and bigBed (40%), single and two pass; each input is written by the real writer "
-            "under a reference configuration and N further ones (quick 11, thorough 39) drawn from worker threads {0 = current-thread "
+            "under a reference configuration (2 workers, in memory, channel 100, iterator source, no delay) and N further ones (quick 13, thorough 47) drawn from worker threads {0 = current-thread "
             "runtime,1,2,3,4,8,16} x inmemory {0,1} x channel_size {0,1,100} x source {iterator, serial text file, "
             "BedParserParallelStreamingIterator with computed offsets, the same with index_chroms} so that every value of every "
             "dimension occurs, about half of them with a seeded delay at the hand-off points (cfg bigtools_verif hook); "
@@ -107,8 +107,8 @@ class C11(Prop):
     # ------------------------------------------------------------------ generation
     def gen(self, rng, tier):
         quick = tier == "quick"
-        n = 40 if quick else 400
-        ncfg = 12 if quick else 40
+        n = 60 if quick else 600
+        ncfg = 14 if quick else 48
         kinds = [0, 1, 2, 0, 3, 0, 1, 2, 0, 1]
         for i in range(n):
             kind, o, sizes, inp, tags = pipeline_input(rng, tier, kinds[i % len(kinds)])
@@ -136,8 +136,11 @@ class C11(Prop):
             return
         kind, o, sizes, inp, cf = c[:5]
         # fewer configurations first (keep the reference), then fewer items
-        for i in range(1, len(cf)):
-            yield sx([kind, o, sizes, inp, cf[:i] + cf[i + 1:]])
+        if len(cf) > 1:
+            yield sx([kind, o, sizes, inp, cf[:1]])
+        if len(cf) > 2:
+            for i in range(1, len(cf)):
+                yield sx([kind, o, sizes, inp, [cf[0], cf[i]]])
         for i in range(len(cf)):
             if cf[i][4] != 0:
                 yield sx([kind, o, sizes, inp, cf[:i] + [cf[i][:4] + [0]] + cf[i + 1:]])
@@ -145,9 +148,16 @@ class C11(Prop):
         for it in inp:
             if it[0] not in names:
                 names.append(it[0])
+        if len(names) > 2:
+            half = names[:len(names) // 2]
+            yield sx([kind, o, sizes, [it for it in inp if it[0] in half], cf])
+            yield sx([kind, o, sizes, [it for it in inp if it[0] not in half], cf])
         for nm in names:
             if len(names) > 1:
                 yield sx([kind, o, sizes, [it for it in inp if it[0] != nm], cf])
+        if len(inp) > 3:
+            yield sx([kind, o, sizes, inp[:len(inp) // 2], cf])
+            yield sx([kind, o, sizes, inp[len(inp) // 2:], cf])
         for i in range(len(inp)):
             if len(inp) > 1:
                 yield sx([kind, o, sizes, inp[:i] + inp[i + 1:], cf])
